@@ -178,10 +178,20 @@ func checkRec(c recCase) error {
 	return nil
 }
 
+// names: mostly short, but one in four with labels up to 63 octets / totals up to 255 octets, so
+// that the length accounting of the text reader is exercised together with escapes
+func longOrShortName(t *rapid.T) wm.Name {
+	if rapid.IntRange(0, 3).Draw(t, "longname") == 0 {
+		return gen.Name(t, gen.NameOpts{MaxLabs: 6, Long: true})
+	}
+	return gen.Name(t, gen.NameOpts{MaxLabs: 5, MaxLabel: 10})
+}
+
 func genRec(t *rapid.T) recCase {
 	o := &gen.Opts{Level: gen.Presentable, Types: textTypes(), Unknown: true, MaxBlob: 40}
 	o.Avoid = map[string]bool{}
 	o.Excluded = pbt.Excluded
+	o.NameGen = longOrShortName
 	r := gen.Rec(t, o)
 	if r.Type == wm.TPrivate {
 		r = gen.RecOfType(t, wm.TA, o)
@@ -255,7 +265,7 @@ func plainTypeList() []uint16 {
 }
 
 func genPlain(t *rapid.T) plainCase {
-	o := &gen.Opts{Level: gen.Presentable, Types: plainTypeList(), MaxBlob: 40}
+	o := &gen.Opts{Level: gen.Presentable, Types: plainTypeList(), MaxBlob: 40, NameGen: longOrShortName}
 	r := gen.Rec(t, o)
 	if r.Type == wm.TGPOS {
 		// GPOS fields are numbers written without quotes; nothing to spell differently
